@@ -27,6 +27,9 @@ rule("C14.j", "split set-up: the steps and nodal records of an interval are tran
               "the interval grid was renumbered 0..T-1, never with the renumbered steps", floor=2)
 rule("C14.k", "split set-up: the mapping that is re-based (original steps, index shift, asset index shift) is a copy - the mapping of the "
               "interval problem itself, whose index tells optimize() which variables are boolean, stays as the interval set-up made it", floor=2)
+rule("C14.p", "the split problem is made of the problems of *all* intervals, in order: the list appended to in the interval loop is handed to "
+              "SplitOptimProblem as it is - not filtered or re-built afterwards (the running offset of the variable labels counted every interval)",
+     floor=1, props=["C14", "C01", "C07", "C04"])
 rule("C14.n", "split set-up: what is looked up in the previous interval may be missing - an asset that starts later has no rows there, a whole "
               "interval may have none: a per-asset value taken from the previous interval's mapping (map / reindex / merge / a maximum over a "
               "selection) is not cast to an integer type without a default (fillna): the cast raises on NaN and no split problem is produced at all",
@@ -36,7 +39,7 @@ rule("C18.c", "time steps and nodal records of an interval are re-based through 
               "duals are concatenated in interval order", floor=3, props=["C18", "C14"])
 
 
-@analysis("split", ["C04.d", "C14.c", "C14.f", "C18.c", "C14.h", "C15.k", "C15.m", "C14.j", "C14.k", "C14.n"])
+@analysis("split", ["C04.d", "C14.c", "C14.f", "C18.c", "C14.h", "C15.k", "C15.m", "C14.j", "C14.k", "C14.n", "C14.p"])
 def run(ctx):
     p = ctx.p
     fn = p.cls("Portfolio").methods.get("setup_split_optim_problem")
@@ -328,3 +331,23 @@ def run(ctx):
                "every interval after the first to the values of the *first* interval's variables, and an index mask over the full grid "
                "does not fit the interval's steps: with a window reaching past the first interval the fixed part of the previous "
                "solution is not reproduced (deviation 1.0 in the demo of D47)", node=c, key="window passed to the interval set-up")
+
+    # ================================================================= C14.p every interval problem reaches SplitOptimProblem
+    sp_calls = [c for s0 in au.walk_stmts(fn.body) for c in au.walk_own(s0) if isinstance(c, ast.Call) and au.method_name(c) == "SplitOptimProblem"]
+    if not sp_calls:
+        ctx.ob("C14.p", fn, "list of interval problems", None, "no SplitOptimProblem(...) call found in the split set-up")
+    for c in sp_calls:
+        a = au.arg_or_kw(c, 0, "ops")
+        if not isinstance(a, ast.Name):
+            ctx.ob("C14.p", fn, "list of interval problems", None, "the problems are not handed over as a plain local (%s)" % au.short(a, 40), node=c)
+            continue
+        st_c = p.enclosing_stmt(c)
+        rebinds = [d for d in ctx.flow(fn).defs(a.id, st_c) if d.kind in ("assign", "unpack", "aug", "for") and d.value is not None
+                   and not (isinstance(d.value, (ast.List, ast.Tuple)) and not d.value.elts)
+                   and not (isinstance(d.value, ast.Call) and isinstance(d.value.func, ast.Name) and d.value.func.id == "list" and not d.value.args)]
+        ctx.ob("C14.p", fn, "every interval problem reaches SplitOptimProblem(%s, ...)" % a.id, not rebinds,
+               "the list of interval problems is re-bound before it is handed over (%s): the labels of the mapping were shifted by the number of "
+               "variables of *every* interval (running offset), so a problem that is left out - an interval in which only variables without "
+               "mapping row exist, e.g. orders outside it - shifts the solution against the labels of all later intervals: the report reads other "
+               "variables (node hub nets to 32 instead of 0)" % "; ".join("%s at %s" % (au.short(d.node, 50), p.where(d.node)) for d in rebinds[:2]),
+               node=(rebinds[0].node if rebinds else c))
